@@ -34,11 +34,89 @@ func corpus(c *hx.Ctx) {
 	k.AddTag(2006, s("note", "a"))
 	k.AddTag(2006, s("#amenity", "pub"))
 	k.RemoveTag(2006, "#amenity")
+	// fixed: sortAndDiffTokens counted repeated tokens (ancestor cells of a covering with cells at mixed
+	// levels are listed once per level they are reached from), so re-indexing a copied referrer dropped it
+	// from ancestor postings it still belonged to: closed path 1005 = 1,2,7,1 and path 1009 = 1,2,7 in the
+	// base; move point 2 (copies both paths); add points 3, 4; replace 1009 by 2,3,4 -> the spatial search
+	// for what intersects 1005 missed 1009 (they share point 2). Found by A10 (C16), diagnosed with A5.
+	w := mw.NewCase(c)
+	w.RootFeature(mw.Feat{ID: 1, Lat: 515616868, Lng: -1541644})
+	w.RootFeature(mw.Feat{ID: 2, Lat: 514980810, Lng: -1048810})
+	w.RootFeature(mw.Feat{ID: 7, Lat: 515207330, Lng: -954316})
+	w.RootFeature(mw.Feat{ID: 1005, Refs: []int{1, 2, 7, 1}})
+	w.RootFeature(mw.Feat{ID: 1009, Refs: []int{1, 2, 7}})
+	w.World()
+	w.Dump()
+	w.AddFeature(mw.Feat{ID: 2, Lat: 515391113, Lng: -1223991})
+	w.AddFeature(mw.Feat{ID: 3, Lat: 515390629, Lng: -1584770})
+	w.AddFeature(mw.Feat{ID: 4, Lat: 515306485, Lng: -1550824})
+	w.AddFeature(mw.Feat{ID: 1009, Refs: []int{2, 3, 4}})
 	c.NonTrivial()
+}
+
+// wideCase: points kilometres apart (coverings with cells at mixed levels), a closed and an open path over
+// them in the base; rounds of "move a point (its referrers are copied into the overlay), then replace a
+// copied referrer", with tag edits in between — the shape that exposed the repeated-token defect. The
+// spatial line of every dump compares the search index with brute force.
+func wideCase(c *hx.Ctx) {
+	r := c.Rand
+	k := mw.NewCase(c)
+	rp := func() (int, int) { return 515365000 + r.Intn(800000) - 400000, -1245000 + r.Intn(800000) - 400000 }
+	for _, id := range []int{1, 2, 7} {
+		lat, lng := rp()
+		k.RootFeature(mw.Feat{ID: id, Lat: lat, Lng: lng, Tags: mw.RandTags(r, 1)})
+	}
+	ring := []int{1, 2, 7, 1}
+	if k.Shadow.Shoelace(ring[:3]) < 0 {
+		ring = []int{1, 7, 2, 1}
+	}
+	k.RootFeature(mw.Feat{ID: 1005, Refs: ring, Tags: mw.RandTags(r, 1)})
+	k.RootFeature(mw.Feat{ID: 1009, Refs: []int{1, 2, 7}, Tags: mw.RandTags(r, 1)})
+	k.World()
+	k.Dump()
+	pts := []int{1, 2, 7}
+	for round, n := 0, 2+r.Intn(4); round < n; round++ {
+		lat, lng := rp()
+		k.AddFeature(mw.Feat{ID: pts[r.Intn(len(pts))], Lat: lat, Lng: lng, Tags: mw.RandTags(r, 1)})
+		for _, id := range []int{3, 4, 8} {
+			if !k.Shadow.Exists[id] || r.Chance(1, 4) {
+				lat, lng := rp()
+				if k.AddFeature(mw.Feat{ID: id, Lat: lat, Lng: lng}) == "ok" && !contains(pts, id) {
+					pts = append(pts, id)
+				}
+			}
+		}
+		if r.Bool() {
+			k.AddTag(1009, mw.RandTag(r, r.Bool()))
+		}
+		perm := r.Perm(len(pts))
+		m := 2 + r.Intn(2)
+		var refs []int
+		for i := 0; i < m && i < len(perm); i++ {
+			refs = append(refs, pts[perm[i]])
+		}
+		ans := k.AddFeature(mw.Feat{ID: []int{1009, 1011}[r.Intn(2)], Refs: refs, Tags: mw.RandTags(r, 1)})
+		c.Note("wide:replace-referrer " + ans)
+	}
+	c.Note("wide")
+	c.NonTrivial()
+}
+
+func contains(xs []int, x int) bool {
+	for _, y := range xs {
+		if y == x {
+			return true
+		}
+	}
+	return false
 }
 
 func runCase(c *hx.Ctx) {
 	r := c.Rand
+	if r.Chance(1, 5) {
+		wideCase(c)
+		return
+	}
 	k := mw.NewCase(c)
 	k.StandardRoot(r, true)
 	k.World()
